@@ -3,7 +3,7 @@
    msgs_of s c is the message record of connection c; all_recs h c m = the messages of selection groups 0..m-1, each stamped seq_in = its group
    number, in the order they were sent (seq_out = 0,1,2,... without gap or repeat: AsyncLaws3).  *)
 From Coq Require Import List Arith ZArith Bool Sorted.
-From Rex Require Import KahnL AsyncModel2 AsyncStable ConflInv RexDet AsyncLaws AsyncLaws2 AsyncLaws3 AsyncLaws4 AsyncLaws5 AsyncLaws6 Consume ConsumeB BlockCount BlockCount2 WindowPush.
+From Rex Require Import KahnL AsyncModel2 AsyncStable ConflInv RexDet AsyncLaws AsyncLaws2 AsyncLaws3 AsyncLaws4 AsyncLaws5 AsyncLaws6 Consume ConsumeB NetConsume BlockCount BlockCount2 WindowPush.
 Open Scope Z_scope.
 
 (* the record of a connection is exactly the concatenation of its selection groups: every message once, in order, seq_in = the step (group) that consumed it *)
@@ -99,3 +99,22 @@ Print Assumptions C03_nb_consumed_is_nb_taken.
 Theorem C03_buffer_example : map (nb_taken (count_buffer false 8 2) (fun i : nat => 10 * Z.of_nat i) ex_stamps) (0%nat :: 1%nat :: 2%nat :: 3%nat :: 4%nat :: nil) = 0%nat :: 0%nat :: 2%nat :: 2%nat :: 4%nat :: nil /\ map (nb_taken (count_latest false) (fun i : nat => 10 * Z.of_nat i) ex_stamps) (0%nat :: 1%nat :: 2%nat :: 3%nat :: 4%nat :: nil) = 0%nat :: 0%nat :: 2%nat :: 2%nat :: 4%nat :: nil /\ map (nb_taken (count_buffer false 8 12) (fun i : nat => 10 * Z.of_nat i) ex_stamps) (0%nat :: 1%nat :: 2%nat :: 3%nat :: 4%nat :: nil) = 0%nat :: 0%nat :: 0%nat :: 2%nat :: 3%nat :: nil.
 Proof. exact @ex_buffer. Qed.
 Print Assumptions C03_buffer_example.
+(* the consumption clause composed at the level of the actor net, for EVERY reachable state (recorded prefix, any thread schedule) and every non-blocking connection: each recorded message (m_out = j, m_in = i) arrived at recv_at j, step i - whose announced time is the start time of the receiver's step i - may take it (arrival <= start, < on a skipped connection, and for buffered jitter expected arrival j * period_sender + phase <= start), and NO earlier step may: it is consumed by the first step the policy allows *)
+Theorem C03_net_consumed_by_first_fitting : forall (G : cfg) (s : state) (c : nat), reach G s -> (c < NCn G)%nat -> c_blocking (conn G c) = false -> consume_ok G c = true -> forall r : mrec, In r (msgs_of G s c) -> let h := hfun tok local s in let j := m_out r in let i := m_in r in exists (kk : nat) (t_i : Z), nth_error (h (Next G c)) i = Some (TSched kk t_i) /\ m_recv r = recv_at G h c j /\ may_take G c t_i j (m_recv r) = true /\ (forall (i' kp : nat) (t' : Z), (i' < i)%nat -> nth_error (h (Next G c)) i' = Some (TSched kp t') -> may_take G c t' j (m_recv r) = false) /\ (i = 0%nat \/ (exists (kp : nat) (t_prev : Z), nth_error (h (Next G c)) (i - 1) = Some (TSched kp t_prev) /\ may_take G c t_prev j (m_recv r) = false)).
+Proof. exact @net_consumed_by_first_fitting. Qed.
+Print Assumptions C03_net_consumed_by_first_fitting.
+
+(* never consumed by a step that started before it arrived, nor (BUFFER) before its expected arrival *)
+Theorem C03_net_never_early : forall (G : cfg) (s : state) (c : nat), reach G s -> (c < NCn G)%nat -> c_blocking (conn G c) = false -> consume_ok G c = true -> forall r : mrec, In r (msgs_of G s c) -> exists (kk : nat) (t_i : Z), nth_error (hfun tok local s (Next G c)) (m_in r) = Some (TSched kk t_i) /\ m_recv r <= t_i /\ (c_skip (conn G c) = true -> m_recv r < t_i) /\ (c_buffer (conn G c) = true -> Z.of_nat (m_out r) * n_period (node G (c_out (conn G c))) + c_phase (conn G c) <= t_i).
+Proof. exact @net_never_early. Qed.
+Print Assumptions C03_net_never_early.
+
+(* the time announced to the connection for receiver step i is the start time of that step *)
+Theorem C03_next_is_start : forall (G : cfg) (s : state) (c i : nat) (t : tok), reach G s -> (c < NCn G)%nat -> c_blocking (conn G c) = false -> nth_error (hfun tok local s (Next G c)) i = Some t -> (c_in (conn G c) < NN G)%nat /\ (exists (kk : nat) (st d : Z), t = TSched kk st /\ nth_error (hfun tok local s (QStart (c_in (conn G c)))) i = Some (TStart kk st d)).
+Proof. exact @next_is_start. Qed.
+Print Assumptions C03_next_is_start.
+
+(* non-vacuity on the two-node example execution *)
+Theorem C03_net_consume_example : (0 < NCn AsyncDataflow.exG)%nat /\ c_blocking (conn AsyncDataflow.exG 0) = false /\ consume_ok AsyncDataflow.exG 0 = true /\ msgs_of AsyncDataflow.exG AsyncDataflow.exS 0 = {| m_out := 0; m_in := 0; m_sent := 2; m_recv := 3 |} :: {| m_out := 1; m_in := 1; m_sent := 12; m_recv := 13 |} :: {| m_out := 2; m_in := 2; m_sent := 22; m_recv := 23 |} :: {| m_out := 3; m_in := 3; m_sent := 32; m_recv := 33 |} :: nil /\ firstn 4 (hfun tok local AsyncDataflow.exS (Next AsyncDataflow.exG 0)) = TSched 0 5 :: TSched 1 15 :: TSched 2 25 :: TSched 3 35 :: nil /\ may_take AsyncDataflow.exG 0 25 2 23 = true /\ may_take AsyncDataflow.exG 0 15 2 23 = false.
+Proof. exact @ex_consume_hyps. Qed.
+Print Assumptions C03_net_consume_example.
